@@ -2,6 +2,8 @@
    (b) the observed result is the specification's slice walk. *)
 From Coq Require Import List ZArith Bool String.
 From JM Require Import Base.Outcome Base.Bytes Base.Utf8 Json.Value Model.Api Model.Array Spec.SpecSlice Checks.Common.
+(* text-only cases (model = implementation) may accompany the cases of this checker *)
+From JM Require Export Checks.Basic.
 Import ListNotations.
 Open Scope Z_scope.
 
